@@ -1,5 +1,5 @@
 (* extraction of builder/reader/spec for the core correspondence; ExtrOcamlBasic only *)
-Require Import FstV.Base FstV.Pack FstV.Node FstV.Registry FstV.Builder FstV.Reader FstV.Automaton FstV.Fst FstV.Format FstV.Crc.
+Require Import FstV.Generated.SrcParams FstV.Base FstV.Pack FstV.Node FstV.Registry FstV.Builder FstV.Reader FstV.Automaton FstV.Fst FstV.Format FstV.Crc.
 Require Extraction.
 Require Import ExtrOcamlBasic.
 Extraction Language OCaml.
@@ -7,4 +7,4 @@ Extraction "core_model.ml"
   new_builder new_builder_v run_calls run_extend apply_op b_finish b_finish_full b_count b_stats b_len build_map_v
   view_of fst_get fst_contains get_key range search_with_state api_get api_contains api_get_key api_range api_search api_search_with_state api_stream api_len read_meta
   spec_calls spec_content accepted_prefix spec_range spec_search spec_get_key lookup
-  model_masked_crc32c denote run spec_open_class spec_parse wf_fst_b spec_read.
+  src_registry_rows src_registry_cols model_masked_crc32c denote run spec_open_class spec_parse wf_fst_b spec_read.
